@@ -10,22 +10,38 @@ import (
 )
 
 func c16Ext(r *h.Result, rng *h.Rng, tier string, ops, impl *[]string, cases *[]any) {
-	nDiff := 400
+	nDiff, nPM, nE2E := 400, 400, 40
 	switch tier {
 	case "thorough":
-		nDiff = 12000
+		nDiff, nPM, nE2E = 12000, 12000, 1000
 	case "search":
-		nDiff = 3000
+		nDiff, nPM, nE2E = 3000, 3000, 300
 	}
 	r.Stream("diff: ProfService.RenderDiff (getTree ×2 over a scripted database → synchronizeNames, mergeNodes, computeFlameGraphDiff) vs Prof.renderDiff; oracle: both sides' values per node, every node of either tree once, contiguous layout and nesting on both sides, names table")
 	dr := rng.Fork()
 	c16DiffStream(r, dr, nDiff, ops, impl, cases)
+	r.Stream("pmerge: service.NewProfileMergeV2().Merge / Profile on decoded prof.Profile structs (shared and disjoint string tables, repeated strings, the empty string elsewhere or missing, stackless samples, locations without lines or mapping, numeric labels with units, damaged references) vs Prof.Pprof.mergeAll / result; ProfService.MergeProfiles on payloads stored by the real writer; oracle: no fault, no dangling reference, value sums, resolved samples = per-key sums of the resolved inputs, in any order")
+	pr := rng.Fork()
+	c16PMergeStream(r, pr, nPM, nE2E, ops, impl, cases)
+	r.Stream("cap: a Go reference of the cut (capped merge = plain merge of the row prefix before the first row that would add node cap+1) vs Prof.mergeTrieCap at small caps, and vs the real MergeTrie at the real cap on 2 020 101 rows; the real name cap on 2 000 003 functions; oracle: what the cut does to conservation and nesting (recorded finding)")
+	cr := rng.Fork()
+	c16CapModelCases(r, cr, nDiff/2, ops, impl, cases)
+	c16CapReal(r)
+	r.Stream("dup-types: profiles with two sample types of one type:unit name through the writer and the reader's first-by-name projection vs Prof.firstIdx; the merge oracle with the FIRST type's values")
+	tr := rng.Fork()
+	c16DupTypes(r, tr, nDiff/8, ops, impl, cases)
 }
 
 func c16ExtStream(op string) string {
 	switch {
 	case strings.HasPrefix(op, "c16diff"):
 		return "diff"
+	case strings.HasPrefix(op, "c16pmerge"):
+		return "pmerge"
+	case strings.HasPrefix(op, "c16capflame"):
+		return "cap"
+	case strings.HasPrefix(op, "c16first"):
+		return "dup-types"
 	}
 	return ""
 }
